@@ -150,7 +150,7 @@ var idNames = []string{"a", "b", "c", "d", "e", "f", "g", "h"}
 func (g *G) id() {
 	name := idNames[g.nid%len(idNames)]
 	g.nid++
-	switch g.alt(4) {
+	switch g.alt(5) {
 	case 0:
 		g.emit(Tok{Text: name, Class: ID, Val: name})
 	case 1:
@@ -159,6 +159,9 @@ func (g *G) id() {
 		g.emit(Tok{Text: "`from`", Class: ID, Val: "from"})
 	case 3:
 		g.emit(Tok{Text: "action", Class: ID, Val: "action"})
+	case 4:
+		// a name the unparser has to escape (non-printable Latin-1 and control characters)
+		g.emit(Tok{Text: "`" + name + ` \x01` + "`", Class: ID, Val: name + " \x01"})
 	}
 }
 
@@ -213,6 +216,8 @@ func (g *G) str() {
 	forms := []struct{ text, val string }{
 		{`'s'`, "s"}, {`"s"`, "s"}, {`'''s'''`, "s"}, {`"""s"""`, "s"}, {`r's\n'`, `s\n`}, {`R"s"`, "s"},
 		{`'a\'b"c'`, `a'b"c`}, {`'é\x41\101\n'`, "éAA\n"}, {`''`, ""}, {`'''a'b'''`, "a'b"},
+		// values the unparser has to escape: non-printable Latin-1, control, astral and replacement characters
+		{`'\u00a0\u0085\u00ad'`, "\u00a0\u0085\u00ad"}, {`'\U000E0001\ufffd'`, "\U000E0001\ufffd"}, {`'\x01\x7f\r\t'`, "\x01\x7f\r\t"},
 	}
 	f := forms[g.alt(len(forms))]
 	g.strTok(f.text, f.val)
